@@ -17,20 +17,20 @@ REQUIRED = ["Angle.__init__", "Angle.reduce_deg", "Angle.reduce_dms", "Angle.dms
             "Angle.__imod__", "Angle.__ipow__",
             "Angle.__radd__", "Angle.__rsub__", "Angle.__rmul__", "Angle.__rdiv__", "Angle.__rtruediv__",
             "Angle.__rmod__", "Angle.__rpow__"]
-THEOREMS = ["C03_reduce_deg_ideal", "C03_reduction_spec", "C03_construct_ideal", "C03_sexagesimal_ideal",
+THEOREMS = ["C03_reduce_deg_ideal", "C03_reduction_spec", "C03_construct_ideal", "C03_sexagesimal_ideal", "C03_sexagesimal_canonical_ideal", "C03_operators_more_ideal",
             "C03_operators_ideal", "C03_division_by_zero_ideal", "C03_unary_compare_ideal",
             "C03_views_ideal", "C03_grid_b64", "C03_reduce_deg_b64", "C03_construct_b64", "C03_to_positive_b64"]
 PROOF_TIMEOUT = {"quick": 1500, "thorough": 3000}
 EXHAUSTIVE = False
 MANIFEST = {
     "category": "proof",
-    "text": ("reduce_deg proved EXACT (= red360, no rounding) in binary64 for every finite float (Flocq bridge).  Ideal (real-arithmetic) instance of the regenerated Angle model, for ALL real inputs: reduce_deg = "
+    "text": ("Binary64, EVERY finite float (Flocq bridge): reduce_deg exact (= red360, no rounding), Angle(x) and to_positive in range.  Ideal (real-arithmetic) instance of the regenerated Angle model, for ALL real inputs: reduce_deg = "
              "sign(x)(|x| - 360 floor(|x|/360)) (strictly inside (-360,360), sign of x, congruent mod 360); Angle(x) / "
-             "radians / ra; sexagesimal: reduce_dms = explicit branch function with the sign of any piece for all real pieces, value formula for canonical pieces, tuple = list = separate arguments; every operator "
+             "radians / ra; sexagesimal: reduce_dms (float pieces) = a transcription of its branches with result shape and the sign of any piece for all real pieces; independent value formula +-(|d|+|m|/60+|s|/3600) reduced proved for CANONICAL pieces only (whole degrees, minutes < 60, seconds < 60), tuple = list = separate arguments, incl. int pieces such as Angle(12,30,15) (canonical pieces); the operators + - * / % ** (restrictions: % for modulus > 0, ** for base > 0) "
              "incl. reflected and in-place = Angle(reduce(a op b)), division by a zero divisor raises ZeroDivisionError; "
-             "to_positive in [0,360) congruent; rad, get_ra.  Binary64 instance: range / sign / exactness of the "
-             "reduction evaluated by the Coq kernel on an explicit boundary grid (k*360 +- 0..2 ulp, denormals, 1e15, "
-             "former counterexamples) - a finite grid, not all floats.  Bit-exact correspondence and a Python oracle "
+             "to_positive in [0,360) congruent; rad, get_ra.  Binary64 instance additionally: range / sign / exactness of the "
+             "reduction, sexagesimal triples and hours evaluated by the Coq kernel on an explicit boundary grid (k*360 +- 0..2 ulp, denormals, 1e15, "
+             "former counterexamples) - a finite grid; dms2deg / set_ra / operator rounding for all floats unproved.  Bit-exact correspondence and a Python oracle "
              "of every clause on the implementation each run."),
     "technique": ("symbolic evaluation of the generated model over the reals (pyrun) + lemmas on floor/fmod (lra/lia); "
                   "kernel computation (vm_compute) on a finite binary64 grid with exact rational reference from "
@@ -48,22 +48,22 @@ CLAUSES = {
         "proved [ideal, all real x and all ints: C03_reduce_deg_ideal + C03_reduction_spec]; proved [B64, FINITE grid: k*360 +- 0..2 ulp and k*360 +- 1 as int for |k|<=40, denormals, +-1 ulp around 0, 1e15-magnitude, ints to 1e15: exact equality with the rational reduction, C03_grid_b64]; proved [B64, EVERY finite float: C03_reduce_deg_b64 - the returned float is finite and its real value is exactly red360 of the value of x, hence |.| < 360 and sign kept; Flocq-based lib/B64Verified.v, contributed by the C11 worker]",
     "Angle(x), Angle(x, radians=True), Angle(x, ra=True), 1-tuple/1-list, copy, no argument":
         "proved [ideal, all real x / ints: C03_construct_ideal]; Angle(x) for a float x: proved [B64, EVERY finite float: C03_construct_b64 - stored value = red360(x) exactly, strictly inside (-360,360), sign of x]; other forms B64: grid (25 h RA etc.) + search",
-    "sexagesimal input: reduce_dms is the explicit branch function of |d|,|m|,|s| with sign -1 iff any piece negative":
-        "proved [ideal, ALL real pieces incl. fractional/overflowing, 64 branches: C03_sexagesimal_ideal part 1]",
+    "sexagesimal input (float pieces): reduce_dms returns (int, int, float, sign) with sign -1 iff any piece negative, and equals the branch function dms_spec of |d|,|m|,|s|":
+        "proved [ideal, ALL real pieces given as floats incl. fractional/overflowing, 64 branches: C03_sexagesimal_ideal part 1].  dms_spec is a TRANSCRIPTION of the code's branches (pins the code against change; independent content: result shape and sign rule only) - not an independent specification of the value",
     "sexagesimal value = +-(|d|+|m|/60+|s|/3600) reduced, negative iff any piece negative (incl. (0,-m,s))":
-        "proved [ideal] for whole degrees, whole minutes < 60, seconds < 60 (C03_sexagesimal_ideal part 3); for fractional/overflowing pieces the arithmetic identity on the branch function is unproved (searched; B64 grid of 30 triples incl. (359,59,59.99999999999999), overflow and 1e15 pieces within 2^-36 degree)",
+        "proved [ideal, end to end through the constructor, tuple, list and hours forms, against the independent formula red360(+-(|d|+|m|/60+|s|/3600))] for CANONICAL pieces only (whole degrees, whole minutes < 60, seconds < 60): int pieces (Angle(12,30,15), Angle(0,-30,0)), ints with float seconds, floats holding whole degrees/minutes (C03_sexagesimal_canonical_ideal, C03_sexagesimal_ideal part 3); mixed int/float degrees-minutes combinations other than these three: not in a theorem (correspondence + searched); for fractional/overflowing pieces the arithmetic identity on the branch function is unproved (searched; B64 grid of 30 triples incl. (359,59,59.99999999999999), overflow and 1e15 pieces within 2^-36 degree)",
     "tuple/list forms equal separate arguments; 2 pieces = seconds 0; hours = times 15 reduced again":
-        "proved [ideal, any pieces: C03_sexagesimal_ideal parts 4-5]; B64 grid: bit-identical",
+        "proved [ideal: float pieces, any values (C03_sexagesimal_ideal parts 4-5: conditional on the value r that dms2deg returns, which parts 1-3 and C03_sexagesimal_canonical_ideal supply); int pieces and int+float seconds: canonical pieces (C03_sexagesimal_canonical_ideal)]; B64 grid (float pieces only): bit-identical",
     "binary operators (+ - * / % **), reflected and in-place: result = new Angle(default tolerance) holding red360(a op b)":
-        "proved [ideal, all real a, b / float y / int z: C03_operators_ideal; ** only for positive base (real power), otherwise searched]",
+        "proved [ideal, all real a, b / float y / int z: C03_operators_ideal (43 equations) + C03_operators_more_ideal (% by a positive int)].  NOT in a theorem (searched only): % with modulus < 0, ** with base <= 0 or int exponent, reflected ** by an int",
     "operands unchanged":
         "model: operators are pure functions of immutable values (translator alias analysis, trusted); searched on the implementation with before/after snapshots of both operands for every operator x operand-type x plain/in-place",
     "% follows the documented reading sign(a)*(|a| mod b); number % Angle converts the number to an Angle first (400 % Angle(70) = 40)":
-        "proved [ideal, b > 0]; searched (also b < 0)",
+        "proved [ideal, b > 0 (Angle, float, positive int)]; b < 0: searched only",
     "division by an Angle equal to 0 within tolerance / a number equal to 0 raises ZeroDivisionError (also reflected, in-place, %)":
-        "proved [ideal: C03_division_by_zero_ideal]; searched",
+        "proved [ideal: C03_division_by_zero_ideal (/ plain, in-place, reflected; % by 0.0) + C03_operators_more_ideal (%= 0.0, % int 0, % Angle holding exactly 0, number % Angle holding exactly 0)]; searched",
     "** with negative base and fractional exponent is complex -> TypeError (not a violation)": "searched (accepted outcome)",
-    "unary -, abs, round(n); comparisons = comparisons of the values, == within the left operand's tolerance": "proved [ideal: C03_unary_compare_ideal]; searched",
+    "unary -, abs, round(n); comparisons = comparisons of the values, == within the left operand's tolerance": "proved [ideal: C03_unary_compare_ideal (Angle-Angle all six; < > == vs float) + C03_operators_more_ideal (<= >= != vs float)]; comparisons with an int and reflected comparisons: searched",
     "to_positive in [0,360), congruent": "proved [ideal, all stored values in (-360,360): C03_views_ideal]; proved [B64, EVERY finite stored value in (-360,360): C03_to_positive_b64 - result in [0,360), = RN(360+d) (one rounding, error <= 2^-45 deg) or 0.0 when that rounds to 360.0 (only for -2^-45 <= d < 0, e.g. -1e-20)]; grid + searched",
     "rad = deg*pi/180, get_ra = deg/15, float(a) = a()": "proved [ideal: C03_views_ideal]; searched",
     "binary64 rounding of the arithmetic (1e-9 degree scaled with magnitude) for all floats": "reduce_deg itself: proved exact for every finite float (C03_reduce_deg_b64); to_positive and Angle(x): proved for every finite float (C03_to_positive_b64, C03_construct_b64); the single rounding of a op b, dms2deg and set_ra for all floats: unproved (grid + searched)",
@@ -71,7 +71,7 @@ CLAUSES = {
 
 
 def proof_files(tier):
-    return ["C03_defs.v", "C03_tac.v", "C03_reduce.v", "C03_construct.v", "C03_forms.v", "C03_dms.v", "C03_ops.v",
+    return ["C03_defs.v", "C03_tac.v", "C03_reduce.v", "C03_construct.v", "C03_forms.v", "C03_dmsi.v", "C03_dms.v", "C03_dms_int.v", "C03_ops.v",
             "C03_grid.v", "C03_reduce_b64.v", "C03_b64.v", "C03.v"]
 
 
